@@ -375,6 +375,13 @@ func runDig(c digCase, r *pb.Rec) error {
 		{"sha512_224", s5224[:], hashz.Sha512_224(in), hashz.Sha512_224(s), hashz.Sha512_224ToString(in), hashz.Sha512_224ToString(s), nil},
 		{"sha512_256", s5256[:], hashz.Sha512_256(in), hashz.Sha512_256(s), hashz.Sha512_256ToString(in), hashz.Sha512_256ToString(s), nil},
 	}
+	held := hashz.Sha256(in)
+	heldCopy := string(held)
+	hashz.Sha256("some other input")
+	hashz.Sha256Stream(bytes.NewReader([]byte("yet another input")))
+	if string(held) != heldCopy {
+		return fmt.Errorf("the slice returned by Sha256 changed after later calls")
+	}
 	for _, o := range all {
 		w := h(o.want)
 		if string(o.gotB) != w || string(o.gotS) != w || o.strB != w || o.strS != w {
